@@ -444,7 +444,10 @@ def run_pipeline(prop, tier, seed, lean, streams, t0, assumptions=(), extra_cov=
                     s["input_hist"][k] = s["input_hist"].get(k, 0) + 1
             if st.nontrivial is None or st.nontrivial(case):
                 distinct.add(case)
-            why = st.oracle(case, io) if st.oracle else None
+            try:
+                why = st.oracle(case, io) if st.oracle else None
+            except Exception as ex:  # an implementation output the oracle cannot even read is a failure, not a crash of the check
+                why = "oracle could not interpret the implementation's output (%s: %s): %s" % (type(ex).__name__, str(ex)[:120], io[:200])
             dis = False
             if model is not None and (st.model_filter is None or st.model_filter(case)):
                 mo = model[i]
